@@ -1,7 +1,8 @@
 /-
-  Hs.Lemmas.NsGraph — the specification graph of a def namespace (`Edge`, `RawEdge`, `Acyclic`) and what
-  `Namespace::make` guarantees: distinct def names, the `subtypes` index is the inverted `is` relation, the
-  `conjuncts_keys` index finds exactly the conjunct defs.
+  Hs.Lemmas.NsGraph — the specification graph of a def namespace (`Edge`, `RawEdge`; `Acyclic` only to tell
+  which examples are cyclic: no theorem assumes it) and what `Namespace::make` guarantees: distinct def names,
+  the `subtypes` index is the inverted `is` relation, the `conjuncts_keys` index finds exactly the conjunct
+  defs; the direct super/subtypes of any symbol are def names (the finite universe of the work-list loops).
 -/
 import Hs.Lemmas.NsWl
 namespace Hs.Ns
@@ -17,7 +18,8 @@ def Edge (g : Defs) (a b : Name) : Prop := ∃ d, get g a = some d ∧ b ∈ d.i
 
 /-- Acyclicity as a topological numbering (`r b < r a` along every `is` item) bounded by the number of defs.
 Undefined symbols have no outgoing edge, so cycles can only run through defined defs: `RawEdge`-acyclic and
-`Edge`-acyclic are the same thing (`acyclic_of_edge_rank`). -/
+`Edge`-acyclic are the same thing (`acyclic_of_edge_rank`).  NO theorem of C13 assumes it any more (the
+traversals expand a def once); it is kept to state that the cyclic examples are cyclic (`not_acyclic_of_cycle`). -/
 def Acyclic (g : Defs) : Prop :=
   ∃ r : Name → Nat, (∀ a b, RawEdge g a b → r b < r a) ∧ ∀ a, r a ≤ g.length
 
@@ -87,6 +89,16 @@ theorem acyclic_of_edge_rank (g : Defs) (r : Name → Nat) (hr : ∀ a b, Edge g
     · simp only [ha, if_true]; have := hb a ha; omega
     · simp [ha]
 
+/-- a def that reaches itself along `is` items rules out every topological numbering -/
+theorem not_acyclic_of_cycle {g : Defs} {a : Name} (h : TransGen (RawEdge g) a a) : ¬ Acyclic g := by
+  rintro ⟨r, hr, _⟩
+  have hlt : ∀ x y, TransGen (RawEdge g) x y → r y < r x := by
+    intro x y hxy
+    induction hxy with
+    | single h1 => exact hr _ _ h1
+    | tail _ h1 ih => exact Nat.lt_trans (hr _ _ h1) ih
+  exact Nat.lt_irrefl _ (hlt a a h)
+
 /-! ### direct supertypes -/
 
 theorem mem_supertypesOf {g : Defs} {s b : Name} : b ∈ supertypesOf g s ↔ Edge g s b := by
@@ -109,6 +121,13 @@ theorem mem_supertypesOf {g : Defs} {s b : Name} : b ∈ supertypesOf g s ↔ Ed
       simp only [id] at h
       subst h
       exact ⟨some b, hit, by simp [hdef]⟩
+
+/-- the direct supertypes of ANY symbol are def names: the universe of `all_supertypes_of` -/
+theorem supertypesOf_in_names (g : Defs) (a b : Name) (h : b ∈ supertypesOf g a) : b ∈ Names g := by
+  obtain ⟨_, _, _, hb⟩ := mem_supertypesOf.1 h
+  exact defined_iff_mem.1 hb
+
+theorem length_names (g : Defs) : (Names g).length = g.length := by simp [Names]
 
 theorem le_sum_of_mem {l : List Nat} {x : Nat} (h : x ∈ l) : x ≤ l.sum := by
   induction l with
@@ -294,6 +313,13 @@ theorem mem_subtypesOf (rows : List Row) (s x : Name) :
   · rintro ⟨d, hd, hk⟩
     obtain ⟨h1, h2⟩ := get_some hd
     exact ⟨d, h1, h2, hk⟩
+
+/-- the direct subtypes of ANY symbol (defined or only mentioned) are def names: the universe of
+`all_subtypes_of` -/
+theorem subtypesOf_in_names (rows : List Row) (a b : Name) (h : b ∈ subtypesOf (make rows) a) :
+    b ∈ Names (make rows).defs := by
+  obtain ⟨d, hd, _⟩ := (mem_subtypesOf rows a b).1 h
+  exact defined_iff_mem.1 (defined_iff.2 ⟨d, hd⟩)
 
 theorem length_subtypesOf_le (rows : List Row) (s : Name) :
     (subtypesOf (make rows) s).length ≤ totalIs (make rows).defs := by
